@@ -78,6 +78,8 @@ async fn asynchronous(worterbuch: &CloneableWbApi, config: &Config) -> Persisten
     )
     .await?;
 
+    select_written_files(config).await?;
+
     File::create(&last_persisted).await?;
 
     Ok(())
@@ -117,6 +119,8 @@ pub(crate) async fn synchronous(
         &grave_goods_last_will_path_checksum,
     )
     .await?;
+
+    select_written_files(config).await?;
 
     File::create(&last_persisted).await?;
 
@@ -187,8 +191,8 @@ pub async fn load(config: &Config) -> PersistenceResult<Worterbuch> {
     let (
         store_path,
         store_path_checksum,
-        grave_goods_last_will_path,
-        grave_goods_last_will_path_checksum,
+        mut grave_goods_last_will_path,
+        mut grave_goods_last_will_path_checksum,
         _,
     ) = file_paths(config, false).await?;
 
@@ -199,7 +203,11 @@ pub async fn load(config: &Config) -> PersistenceResult<Worterbuch> {
                 "Could not load persistence file {}: {e}",
                 store_path.to_string_lossy()
             );
-            let (store_path, store_path_checksum, _, _, _) = file_paths(config, true).await?;
+            // grave goods and last wills must come from the same snapshot as the store
+            let (store_path, store_path_checksum, gglw_path, gglw_path_checksum, _) =
+                file_paths(config, true).await?;
+            grave_goods_last_will_path = gglw_path;
+            grave_goods_last_will_path_checksum = gglw_path_checksum;
             info!(
                 "Trying to load persistence file {} …",
                 store_path.to_string_lossy()
@@ -318,36 +326,40 @@ pub(crate) async fn file_paths(
     ))
 }
 
+/// Tells which set of files to use: readers get the selected one, writers the other one. The selector itself is
+/// only switched by `select_written_files`, once the files a writer produced are complete, so that a crash during a
+/// flush always leaves the selected set of files intact.
 #[instrument(level=Level::DEBUG, ret, err)]
 async fn toggle_alternating_files(path: &Path, write: bool) -> PersistenceResult<bool> {
+    let main_selected = File::open(path).await.is_ok();
     if write {
-        if remove_file(path).await.is_ok() {
-            debug!(
-                "toggle file {} removed, writing to backup",
-                path.to_string_lossy()
-            );
-            Ok(false)
-        } else {
-            File::create(path).await?;
-            debug!(
-                "toggle file {} created, writing to main",
-                path.to_string_lossy()
-            );
-            Ok(true)
-        }
-    } else if File::open(path).await.is_ok() {
         debug!(
-            "toggle file {} exists, reading from main",
-            path.to_string_lossy()
+            "toggle file {} {}, writing to {}",
+            path.to_string_lossy(),
+            if main_selected { "exists" } else { "does not exist" },
+            if main_selected { "backup" } else { "main" },
         );
-        Ok(true)
+        Ok(!main_selected)
     } else {
         debug!(
-            "toggle file {} does not exists, reading from backup",
-            path.to_string_lossy()
+            "toggle file {} {}, reading from {}",
+            path.to_string_lossy(),
+            if main_selected { "exists" } else { "does not exist" },
+            if main_selected { "main" } else { "backup" },
         );
-        Ok(false)
+        Ok(main_selected)
     }
+}
+
+/// Makes the files written by the flush that just completed the ones to be read on the next start.
+#[instrument(level=Level::DEBUG, skip(config), err)]
+async fn select_written_files(config: &Config) -> PersistenceResult<()> {
+    let mut toggle_path = PathBuf::from(&config.data_dir);
+    toggle_path.push(".toggle");
+    if remove_file(&toggle_path).await.is_err() {
+        File::create(&toggle_path).await?;
+    }
+    Ok(())
 }
 
 #[instrument(level=Level::DEBUG, skip(data), ret)]
